@@ -5,6 +5,8 @@
 #include <stdlib.h>
 #include <string.h>
 #include <errno.h>
+#include <pthread.h>
+#include <stdint.h>
 #include "qlibc.h"
 #include "vfc.h"
 /* the print helpers (debug()) run on real contents now and then: C11 covers what they read */
@@ -61,7 +63,8 @@ static const char *POLN[3] = {"exact", "linear", "double"};
 static void vec_new(size_t cap, size_t es, int pol) {
     ledger_mark = vf_ledger_mark();
     ES = es; MN = 0; hm_free(M); M = NULL; MCAPN = 0; m_reserve(8);
-    V = qvector(cap, es, POL[pol]);
+    static unsigned long vctr; vctr++;
+    V = qvector(cap, es, POL[pol] | ((vctr & 1) ? QVECTOR_THREADSAFE : 0));      /* every other vector is thread-safe: "fully usable" includes other threads (usable_by_others) */
     if (!V) { fprintf(stderr, "qvector() failed\n"); exit(2); }
     abandon = false;
 }
@@ -119,6 +122,11 @@ static void v_access(int how, int index, int act) {
     if (act == 1) memcpy(mel(pos), EBUF, ES);
     if (act >= 2) m_del(pos);
 }
+/* a second thread must be able to take the vector's lock: a call that returns with the lock held leaves the vector unusable for everybody else */
+static void usable_by_others(const char *after) {
+    if (!V->qmutex || abandon) return;
+    if (!vf_lock_probe(V->qmutex)) judge("C10", "unusable-for-other-threads", "after %s a second thread can not take the lock of the (thread-safe) vector", after);
+}
 /* a capacity that can not be had (more bytes than the address space, or a byte count that does not fit size_t) must be refused without any effect */
 static void v_resize_absurd(bool wraps) {
     size_t k = wraps ? SIZE_MAX / ES + 2 : SIZE_MAX / ES / 4, oldmax = V->max;
@@ -128,6 +136,7 @@ static void v_resize_absurd(bool wraps) {
     vf_count(wraps ? "resize_wrapping_byte_count" : "resize_unallocatable", 1);
     if (r) { judge("C10", "resize-absurd-accepted", "resize(%zu) of %zu-byte elements returned true (capacity now %zu)", k, (size_t)ES, V->max); return; }
     if (V->max != oldmax) judge("C10", "resize-refused-capacity", "refused resize changed the capacity from %zu to %zu", oldmax, V->max);
+    usable_by_others("a refused resize");
 }
 static void v_resize(size_t k) {
     vf_log("resize(%zu) n=%d max=%zu", k, MN, V->max);
@@ -136,6 +145,7 @@ static void v_resize(size_t k) {
     if ((size_t)MN > k) MN = (int)k;
     vf_count(k == 0 ? "resize_to_zero" : k < (size_t)MN + 1 ? "resize_at_or_below_n" : "resize_above_n", 1);
     if (V->max != k) judge("C10", "resize-capacity", "capacity %zu after resize(%zu)", V->max, k);
+    usable_by_others(k ? "resize" : "resize(0)");
 }
 static void v_toarray(void) {
     size_t cnt = 999; errno = 0;
@@ -208,6 +218,7 @@ static void history(long caseno) {
         else { vf_log("invalid"); errno = 0; if (V->addlast(V, NULL) || errno != EINVAL) judge("C10", "einval", "addlast(NULL) accepted"); vf_count("invalid_arg_calls", 1); }
         vf_count("evaluations", 1);
         if (!abandon) vec_check();
+        if (!abandon && (op % 23) == 0) usable_by_others("an ordinary operation");
         if ((op & 3) == 0) { uint64_t h = VF_H0 + es * 8 + (uint64_t)pol; for (int i = 0; i < MN && i < 24; i++) h = vf_hash(mel(i), ES < 2 ? ES : 2, h); vf_distinct("distinct", h ^ ((uint64_t)MN << 40) ^ ((uint64_t)V->max << 20)); }
         if (P == 11 && (op & 15) == 0 && vf_san_poll()) break;
     }
